@@ -10,6 +10,7 @@ the property depends on them.
 from __future__ import annotations
 
 import ast
+from ..core import utext
 
 from ..absint import In, Interp, Obj
 from ..core import (DESCRIPTOR_CLASSES, SHORT, AnalysisError, DefUse, Program,
@@ -131,6 +132,34 @@ def run(prog: Program, res: Result, tier: str) -> None:
                     isinstance(n, ast.Attribute) and n.attr in READS[slot]
                     and norm(n.value) == selfn
                     for d in dep_nodes for n in ast.walk(d))
+                # a change setter called with explicit role keywords: every
+                # one of the three roles must receive an inverted descriptor
+                if slot.endswith("_change") and isinstance(node, ast.Call) \
+                        and any(k.arg in ("broken", "formed", "fleeting")
+                                for k in node.keywords):
+                    roles = {k.arg: k.value for k in node.keywords if k.arg}
+                    starred = any(k.arg is None for k in node.keywords)
+                    for role in ("broken", "formed", "fleeting"):
+                        if role not in roles:
+                            if not starred:
+                                problems[slot] = (
+                                    f"`{norm(node, 90)}` does not carry the "
+                                    f"{role.upper()} descriptor over to the "
+                                    "enantiomer")
+                            continue
+                        inv = any(
+                            isinstance(n, ast.Call) and isinstance(
+                                n.func, ast.Attribute)
+                            and n.func.attr == "invert"
+                            for d in du.dep_nodes(roles[role])
+                            for n in ast.walk(d))
+                        if not inv:
+                            problems[slot] = (
+                                f"`{norm(node, 90)}` passes the "
+                                f"{role.upper()} descriptor "
+                                f"`{norm(roles[role], 50)}` without invert(): "
+                                "a chiral descriptor in that role is not "
+                                "mirrored")
                 if has_invert and reads:
                     # conditional inversion of only some descriptor classes?
                     cond = [a for a in _enclosing_ifs(node, fi.node)
@@ -177,7 +206,7 @@ def run(prog: Program, res: Result, tier: str) -> None:
             if not s.endswith("_change") or s not in covered:
                 continue
             for fi in chain:
-                txt = ast.unparse(fi.node)
+                txt = utext(fi.node)
                 named = {r for r in ("FORMED", "BROKEN", "FLEETING")
                          if f"Change.{r}" in txt}
                 named |= {r.upper() for r in ("formed", "broken", "fleeting")
